@@ -10,7 +10,7 @@
    is well formed (wf_param IS the list of the limits), so it is written and read back unchanged by
    C17_at_the_limits_roundtrip (= the record theorem of C01), and with C01_load_save the whole object is. *)
 From Coq Require Import Lia ZifyN.
-From EZ Require Import Base Bytes Types Api Enc Dec Float32 Run Proofs_Bytes Proofs_Codec Proofs_Record.
+From EZ Require Import Base Bytes Types Api Enc Dec Float32 Run Proofs_Bytes Proofs_Codec Proofs_Record Proofs_RoundTrip Proofs_Decide Run_Decide.
 Local Open Scope N_scope.
 
 Definition param_cap_ok (p : param) : bool :=
@@ -128,3 +128,15 @@ Print Assumptions C17_limits_are_well_formed.
 Example C17_nonvacuous : cap_ok init = true.
 Proof. vm_compute. reflexivity. Qed.
 Print Assumptions C17_nonvacuous.
+
+(* end to end: an object whose every component is within the limits (ls_ok_x checks each of them: names 1..127, descriptions
+   up to 255, dimensions up to 255 entries of up to 255, 16-bit integers, up to 65535 points / samples / frames, a parameter
+   section of up to 254 blocks, records below 65536 bytes) and whose header agrees with its parameters is saved and loaded
+   back unchanged *)
+Theorem C17_within_limits_end_to_end : forall s, ls_ok_x s = true ->
+  exists bytes blocks pn an, save_x s = Ok bytes /\ load_x bytes = Ok (reloaded s blocks pn an).
+Proof.
+  intros s H. destruct (ls_ok_load_save f_key_impl f_tosize_impl f_div_impl s H) as (bytes & blocks & pn & an & _ & Sv & Ld).
+  exists bytes, blocks, pn, an. split; [exact Sv|exact Ld].
+Qed.
+Print Assumptions C17_within_limits_end_to_end.
